@@ -376,21 +376,21 @@ class ProcessRunner(Runner, ABC):
         # will be no later call to wait() after the last task).
         self._consume_log_queue()
         for future in done:
-            task = self.future_to_task[future]
+            # Forget the future before yielding its task, so that the
+            # task is never yielded again by a later call if the
+            # caller is interrupted while iterating.
+            task = self.future_to_task.pop(future)
             if future.cancelled:
                 continue
             try:
                 task_result = future.result()
+            except KeyboardInterrupt:
+                raise
             except BaseException as ex:
                 yield (task, ex)
             else:
                 self.results_map[task] = task_result
                 yield (task, task_result.meta)
-        self.future_to_task = {
-            future: self.future_to_task[future]
-            for future in self.future_to_task
-            if future not in done
-        }
 
     def cancel(self) -> None:
         self.executor.cancel()
